@@ -82,33 +82,39 @@ Record rlog := {
   l_merges : list nat;        (* sizes of the mergeValues calls of channel.get *)
   l_empties : nat;            (* emptyStream() inputs *)
   l_fired : list key;         (* nodes for which a task was created, END included, in order *)
+  l_cp_drains : nat;          (* streams concatenated (drained and closed) by checkPointer.convertCheckPoint *)
+  l_input_closes : nat;       (* ignored inputs of resumed runs closed by runner.run *)
 }.
 Definition log0 : rlog :=
   {| l_resolve_closes := 0; l_update_closes := 0; l_chan_closes := 0; l_skip_closes := 0;
-     l_merges := []; l_empties := 0; l_fired := [] |}.
+     l_merges := []; l_empties := 0; l_fired := []; l_cp_drains := 0; l_input_closes := 0 |}.
 
 Inductive origin := OResolve | OUpdate | OChan | OSkip.
 Definition log_close (o : origin) (n : nat) (l : rlog) : rlog :=
   match o with
   | OResolve => {| l_resolve_closes := l_resolve_closes l + n; l_update_closes := l_update_closes l;
                    l_chan_closes := l_chan_closes l; l_skip_closes := l_skip_closes l;
-                   l_merges := l_merges l; l_empties := l_empties l; l_fired := l_fired l |}
+                   l_merges := l_merges l; l_empties := l_empties l; l_fired := l_fired l;
+                   l_cp_drains := l_cp_drains l; l_input_closes := l_input_closes l |}
   | OUpdate => {| l_resolve_closes := l_resolve_closes l; l_update_closes := l_update_closes l + n;
                   l_chan_closes := l_chan_closes l; l_skip_closes := l_skip_closes l;
-                  l_merges := l_merges l; l_empties := l_empties l; l_fired := l_fired l |}
+                  l_merges := l_merges l; l_empties := l_empties l; l_fired := l_fired l;
+                   l_cp_drains := l_cp_drains l; l_input_closes := l_input_closes l |}
   | OChan => {| l_resolve_closes := l_resolve_closes l; l_update_closes := l_update_closes l;
                 l_chan_closes := l_chan_closes l + n; l_skip_closes := l_skip_closes l;
-                l_merges := l_merges l; l_empties := l_empties l; l_fired := l_fired l |}
+                l_merges := l_merges l; l_empties := l_empties l; l_fired := l_fired l;
+                   l_cp_drains := l_cp_drains l; l_input_closes := l_input_closes l |}
   | OSkip => {| l_resolve_closes := l_resolve_closes l; l_update_closes := l_update_closes l;
                 l_chan_closes := l_chan_closes l; l_skip_closes := l_skip_closes l + n;
-                l_merges := l_merges l; l_empties := l_empties l; l_fired := l_fired l |}
+                l_merges := l_merges l; l_empties := l_empties l; l_fired := l_fired l;
+                   l_cp_drains := l_cp_drains l; l_input_closes := l_input_closes l |}
   end.
 Definition log_get (vals : nat) (k : key) (l : rlog) : rlog :=
   {| l_resolve_closes := l_resolve_closes l; l_update_closes := l_update_closes l;
      l_chan_closes := l_chan_closes l; l_skip_closes := l_skip_closes l;
      l_merges := if Nat.leb 2 vals then l_merges l ++ [vals] else l_merges l;
      l_empties := if Nat.eqb vals 0 then S (l_empties l) else l_empties l;
-     l_fired := l_fired l ++ [k] |}.
+     l_fired := l_fired l ++ [k]; l_cp_drains := l_cp_drains l; l_input_closes := l_input_closes l |}.
 
 (* ------------------------------------------------------------------ run state *)
 Record rstate := {
@@ -406,14 +412,17 @@ Definition mark_resolved (ks : list key) (st : rstate) : rstate :=
      rs_resolved := rs_resolved st ++ ks; rs_log := rs_log st |}.
 
 (* calculateNextTasks(completedTasks) up to the ready map: resolveCompletedTasks, updateAndGet *)
-Definition calc_next (g : graph) (b : batch) (st : rstate) : res (list (key * handle) * rstate) :=
-  if negb (batch_fits g b (rs_pending st)) then Err E_BAD_SCHEDULE else
+Definition calc_body (g : graph) (b : batch) (st : rstate) : res (list (key * handle) * rstate) :=
   do r1 <- phase1 g b st;
   let '(l, st1) := r1 in
   do st2 <- phase2 g l st1;
   do st3 <- phase3 g l st2;
   let st3' := mark_resolved (map fst b) st3 in
   get_ready g (chan_keys g) st3'.
+
+(* the completed tasks are those taskManager.wait returned *)
+Definition calc_next (g : graph) (b : batch) (st : rstate) : res (list (key * handle) * rstate) :=
+  if negb (batch_fits g b (rs_pending st)) then Err E_BAD_SCHEDULE else calc_body g b st.
 
 (* ... followed by the END test / createTasks *)
 Definition superstep (g : graph) (b : batch) (st : rstate) : res outcome :=
